@@ -55,14 +55,20 @@ def check_full(col, case, sub='full'):
     if img.vsize is None or not img.clean:
         raise core.HarnessError('C07 generator produced a non-well-formed '
                                 'image: %r' % (img.brief(),))
-    v, insp, _f = imgdrive.drive(fmt, img.data, sched)
+    qplan = case.get('queries')
+    if qplan == 'all':
+        queries = set(range(len(chunking.sizes_of(sched, len(img.data)))))
+    else:
+        queries = set(qplan) if qplan else None
+    v, insp, _f = imgdrive.drive(fmt, img.data, sched, queries=queries)
     got = v[3]
     n = len(img.data)
     default = imggen.BUILDERS[fmt]().vsize
     aimed = chunking.near_boundary(sched, n, img.boundaries)
     nontrivial = img.vsize not in (0, default) and (
         aimed or len(params) > 2)
-    col.case(sub, (fmt, sorted(params.items(), key=repr), sched), nontrivial,
+    col.case(sub, (fmt, sorted(params.items(), key=repr), sched,
+                   repr(case.get('queries'))), nontrivial,
              ['fmt=' + fmt, 'sizeclass=' + _size_class(img.vsize)],
              {'fmt': fmt, 'params': params, 'declared': img.vsize,
               'schedule': sched if sched[0] == 'fixed' or
@@ -156,7 +162,13 @@ def _full_strategy(fmts):
         sched = draw(chunking.schedules(
             len(img.data), img.boundaries,
             allow_tiny=len(img.data) <= 70000))
-        return {'fmt': fmt, 'params': params, 'schedule': sched}
+        nchunks = len(chunking.sizes_of(sched, len(img.data)))
+        queries = draw(st.one_of(
+            st.none(), st.just('all') if nchunks <= 600 else st.none(),
+            st.lists(st.integers(0, max(0, min(nchunks, 600) - 1)),
+                     max_size=4, unique=True)))
+        return {'fmt': fmt, 'params': params, 'schedule': sched,
+                'queries': queries}
     return cases()
 
 
@@ -187,8 +199,9 @@ def size_sweep(col, fmt):
                 from vcheck import imggen
                 n = len(imggen.build(fmt, p).data)
                 s = sched if sched[0] == 'fixed' else ['sizes', [n]]
-                check_full(col, {'fmt': fmt, 'params': p, 'schedule': s},
-                           sub)
+                check_full(col, {'fmt': fmt, 'params': p, 'schedule': s,
+                                 'queries': 'all' if sched[0] == 'fixed'
+                                 else None}, sub)
     col.exhaustive[sub] = True
 
 
